@@ -1,1 +1,10 @@
 import SsqlVerif.Props.C15
+#print axioms C15.nfa_accepts_iff_lang
+#print axioms C15.compileNode_correct
+#print axioms C15.emitted_match_valid
+#print axioms C15.skip_past_last_row_disjoint
+#print axioms C15.match_starts_increasing
+#print axioms C15.match_number_sequential
+#print axioms C15.flush_emits_accepting
+#print axioms C15.cep_partition_isolation
+#print axioms C15.facts_cep
